@@ -190,7 +190,7 @@ class LinCtx:
             return False
         return None
 
-    def prove_hard(self, cond, label="", timeout_s=100):
+    def prove_hard(self, cond, label="", timeout_s=100, solver_ms=None):
         """prove() in a forked child that is killed at the deadline (z3 does not always honour its own time limit on these contexts):
         True / False / None as prove(); a False verdict is re-derived by the caller through model_for when it needs the model"""
         import os
@@ -200,7 +200,7 @@ class LinCtx:
         if pid == 0:
             try:
                 os.close(r_fd)
-                v = self.prove(cond, label, int(timeout_s * 1000))
+                v = self.prove(cond, label, int(solver_ms if solver_ms is not None else timeout_s * 1000))
                 os.write(w_fd, {True: b"T", False: b"F", None: b"U"}[v])
             finally:
                 os._exit(0)
@@ -208,8 +208,8 @@ class LinCtx:
         import select
         t0 = time.time()
         out = b""
-        while time.time() - t0 < timeout_s + 5:
-            rl, _, _ = select.select([r_fd], [], [], 0.5)
+        while time.time() - t0 < timeout_s + (5 if timeout_s >= 10 else 0.5):
+            rl, _, _ = select.select([r_fd], [], [], 0.05 if timeout_s < 10 else 0.5)
             if rl:
                 out = os.read(r_fd, 1)
                 break
@@ -229,6 +229,55 @@ class LinCtx:
         self.queries += 1
         self.solver_time += time.time() - t0
         return {b"T": True, b"F": False}.get(out)
+
+    def prove_portfolio(self, cond, label="", timeout_s=100, seeds=(0, 7, 23)):
+        """prove() in several forked children at once, each with another solver seed, killed at the deadline; the first decisive verdict wins
+        (True / False), None if none of them decides.  z3's running time on the non-linear-looking integer queries of the decompositions varies by
+        more than an order of magnitude from one process to the next; racing a few seeds makes the verdict, and the wall time, reproducible."""
+        import os
+        import select
+        import signal
+        kids = {}
+        t0 = time.time()
+        for sd in seeds:
+            r_fd, w_fd = os.pipe()
+            pid = os.fork()
+            if pid == 0:
+                try:
+                    os.close(r_fd)
+                    try:
+                        z3.set_param("smt.random_seed", sd)
+                        self.solver.set("random_seed", sd)
+                    except Exception:
+                        pass
+                    v = self.prove(cond, label, int(timeout_s * 1000))
+                    os.write(w_fd, {True: b"T", False: b"F", None: b"U"}[v])
+                finally:
+                    os._exit(0)
+            os.close(w_fd)
+            kids[r_fd] = pid
+        verdict = None
+        live = dict(kids)
+        while live and time.time() - t0 < timeout_s + 5 and verdict is None:
+            rl, _, _ = select.select(list(live), [], [], 0.5)
+            for fd in rl:
+                out = os.read(fd, 1)
+                if out in (b"T", b"F"):
+                    verdict = (out == b"T")
+                del live[fd]
+        for fd, pid in kids.items():
+            try:
+                os.kill(pid, signal.SIGKILL)
+            except ProcessLookupError:
+                pass
+            try:
+                os.waitpid(pid, 0)
+            except ChildProcessError:
+                pass
+            os.close(fd)
+        self.queries += 1
+        self.solver_time += time.time() - t0
+        return verdict
 
     def evaluate_point(self, inputs):
         """all variables of the context at one input (var index -> value for the 'in' variables): products and truncation quotients are functions
